@@ -278,7 +278,7 @@ def flow_layer(events, cid, info, vc, hook_types):
                             "tls_name": nz(kv.get("identifier_tls_alpn")) if chal == "tls-alpn-01" else "none",
                             "is_clean_hook": kv.get("is_clean_hook", "none"), "ok": e.get("exit") == 0 or bool(allowed)})
             elif role == "postop":
-                files = {f["path"]: f for f in e.get("files") or []}
+                files = {f["path"]: f for f in e.get("files_first") or e.get("files") or []}
                 kf = files.get(kv.get("private_key_path"))
                 cf = files.get(kv.get("certificate_path"))
                 out.append({"e": "PostOp", "is_success": kv.get("is_success") == "true", "status": kv.get("status", ""),
